@@ -1216,6 +1216,15 @@ let vp_cmd (args : string list) : string =
     vp_state := { !vp_state with vs_cache = c };
     (match r with Some v -> "val:" ^ vv_show_val v | None -> "err")
   | ["state"] -> vp_show_state ()
+  (* the directory holds the one file `id` with the given bytes: what the open does with it, then the writer *)
+  | ["hopen"; id; h] ->
+    let idn = big_of_string id in
+    (match vopen_file vLOG_OPEN_EMPTIES_TORN_HEADER idn (if h = "-" then [] else bytes_of_hex h) with
+     | None -> "refuse"
+     | Some b ->
+       let f = vwriter_open idn N0 (n_of_int 4096) b in
+       let rec take k l = if k = 0 then [] else (match l with [] -> [] | x :: r -> x :: take (k - 1) r) in
+       Printf.sprintf "ok:%d:%s" (List.length f) (hex_of_bytes (take 10 f)))
   | ["file"; id] ->
     (match find_file (big_of_string id) !vp_state.vs_files with
      | Some f -> Printf.sprintf "#%d/%s" (List.length f.vf_bytes) (fnv f.vf_bytes)
